@@ -83,7 +83,8 @@ Limits(d, c, af) ==
     [] OTHER -> <<Quantile(d, c.ql, af), Quantile(d, c.qu, af)>>
 
 Z == <<0, 1>>
-Cfgs == {[t |-> "manual", lo |-> l, hi |-> h, c |-> Z, h2 |-> NONE, ql |-> Z, qu |-> Z] : l \in {NONE, <<-1, 1>>, <<1, 1>>, <<1, 2>>}, h \in {NONE, <<3, 1>>, <<5, 2>>}}
+Cfgs == {[t |-> "manual", lo |-> l, hi |-> h, c |-> Z, h2 |-> NONE, ql |-> Z, qu |-> Z] : l \in {NONE, <<-1, 1>>, <<1, 1>>, <<1, 2>>, <<2, 1>>}, h \in {NONE, <<3, 1>>, <<5, 2>>, <<2, 1>>}}
+        \* (the limit 2 becomes exactly 0 under the embedding <<50, -100>>: a given limit of 0 is a value, not "missing")
         \cup {[t |-> "centered", lo |-> NONE, hi |-> NONE, c |-> c, h2 |-> h, ql |-> Z, qu |-> Z] : c \in {<<0, 1>>, <<2, 1>>}, h \in {NONE, <<1, 1>>, <<3, 1>>}}
         \cup {[t |-> "quantile", lo |-> NONE, hi |-> NONE, c |-> Z, h2 |-> NONE, ql |-> q[1], qu |-> q[2]] : q \in {<< <<0, 1>>, <<1, 1>> >>, << <<1, 4>>, <<3, 4>> >>,
                                                                   << <<0, 1>>, <<1, 2>> >>, << <<1, 50>>, <<49, 50>> >>}}
